@@ -349,6 +349,57 @@ pub fn generate_leaf_table(emit: &mut dyn FnMut(String)) {
 			emit(case_line(allow_slow, None, &sch, &v));
 		}
 	}
+	// counts, lengths and branch indexes on both sides of the one-byte / two-byte varint boundary
+	// (zig-zag: 63 | 64) and of the next one (8191 | 8192): a union of 130 branches selected by
+	// name and by type, arrays and maps of 63 … 129 items, strings and byte strings of those lengths
+	let mut wide: Vec<(RawSchema, SV)> = vec![];
+	let mut u: RawSchema = vec![nd(Reg::Union((1..=130).collect()), None)];
+	for k in 0..128 {
+		u.push(nd(Reg::Fixed(format!("F{k}"), 1), None));
+	}
+	u.push(nd(Reg::String, None));
+	u.push(nd(Reg::Long, None));
+	for k in [0usize, 1, 62, 63, 64, 65, 100, 126, 127] {
+		wide.push((u.clone(), SV::NewtypeVariant("U".into(), k as u32, format!("F{k}"), Box::new(SV::Bytes(vec![k as u8])))));
+	}
+	wide.push((u.clone(), SV::Str("x".into())));
+	wide.push((u.clone(), SV::Int(IntTy::I64, BigI::Pos(5))));
+	wide.push((u.clone(), SV::NewtypeVariant("U".into(), 128, "String".into(), Box::new(SV::Str("y".into())))));
+	wide.push((u.clone(), SV::NewtypeVariant("U".into(), 129, "Long".into(), Box::new(SV::Int(IntTy::I64, BigI::from_i128(-7))))));
+	for n in [62usize, 63, 64, 65, 127, 128, 129] {
+		let items: Vec<SV> = (0..n).map(|k| SV::Int(IntTy::I32, BigI::Pos(k as u128))).collect();
+		wide.push((vec![nd(Reg::Array(1), None), nd(Reg::Int, None)], SV::Seq(Some(n), items.clone())));
+		wide.push((vec![nd(Reg::Array(1), None), nd(Reg::Int, None)], SV::Seq(None, items)));
+		let entries: Vec<(SV, SV)> = (0..n).map(|k| (SV::Str(format!("k{k}")), SV::Bool(k % 2 == 0))).collect();
+		wide.push((vec![nd(Reg::Map(1), None), nd(Reg::Boolean, None)], SV::Map(Some(n), entries, true)));
+	}
+	for n in [63usize, 64, 65, 8191, 8192, 8193] {
+		wide.push((vec![nd(Reg::String, None)], SV::Str("a".repeat(n))));
+		wide.push((vec![nd(Reg::Bytes, None)], SV::Bytes(vec![0x5a; n])));
+	}
+	for (sch, v) in wide {
+		emit(case_line(false, None, &sch, &v));
+		let mut w = W::default();
+		w.t("rt").n(0).schema(&sch).sv(&v);
+		ext_entries(&mut w, &sch, &v);
+		emit(w.s);
+	}
+	// decimals over a fixed wider than an i128: the sign-extension bytes, and values that round to
+	// zero from below ("-0.004" at scale 2 is 0, not a negative number)
+	for size in [17usize, 20, 32] {
+		let sch = vec![nd(Reg::Fixed("W".into(), size), Some(Logical::Decimal(2, 30)))];
+		for text in ["-0.004", "-0.001", "-0.005", "-0.006", "0.004", "-0", "0", "-0.00", "-1.5", "1.5", "-12345678901234567890.12", "79228162514264337593543950.33", "-79228162514264337593543950.33"] {
+			// (serializer only: reading a decimal wider than 16 bytes back is beyond the crate's
+			// documented limit, so there is no round trip to ask for)
+			emit(case_line(false, None, &sch, &SV::Str(text.into())));
+		}
+		for f in [-0.004f64, -0.0049, -0.005, 0.004, -0.0, 0.0, -1.5, 1e15, -1e15] {
+			emit(case_line(false, None, &sch, &SV::F64(f.to_bits())));
+		}
+		for v in [0i128, -1, 1, i64::MIN as i128, i64::MAX as i128, i128::MIN, i128::MAX] {
+			emit(case_line(false, None, &sch, &i(IntTy::I128, v)));
+		}
+	}
 }
 
 pub fn generate(stream: &str, seed: u64, n: usize, emit: &mut dyn FnMut(String)) {
@@ -1083,11 +1134,11 @@ pub fn run_single(line: &str) -> Result<String, String> {
 	let v = r.sv()?;
 	let other_raw = r.schema()?;
 	let variants = r.list(|r| r.xb())?;
-	let schema = match build::to_schema_mut(&raw).freeze() {
+	let schema = match build::to_schema_mut_sel(&raw, line.len()).freeze() {
 		Ok(s) => s,
 		Err(_) => return Ok("freeze-err".into()),
 	};
-	let other = match build::to_schema_mut(&other_raw).freeze() {
+	let other = match build::to_schema_mut_sel(&other_raw, line.len() + 1).freeze() {
 		Ok(s) => s,
 		Err(_) => return Ok("freeze-err".into()),
 	};
